@@ -244,4 +244,184 @@ theorem mem_takeWhile_ne (L : List Bytes) (p s : Bytes)
         · exact Or.inl h
         · exact Or.inr ⟨h, hlt⟩
 
+/-! ### The walk from a private suffix down to the ICANN suffix -/
+
+/-- The loop at the head of `hashableSubdomains` as a relation, without fuel: `Walk ps cur r`
+says that starting from the look-up result `cur` the loop ends with stop name `r`.  An ICANN
+answer ends it; a private answer without a dot ends it with `""`; any other private answer —
+however many there are in a row — continues with the look-up of the suffix's parent. -/
+inductive Walk (ps : Bytes → Bytes × Bool) : Bytes × Bool → Bytes → Prop
+  | icann (cur : Bytes × Bool) : cur.2 = true → Walk ps cur cur.1
+  | bottom (cur : Bytes × Bool) : cur.2 = false → afterDot cur.1 = none → Walk ps cur []
+  | step (cur : Bytes × Bool) (parent r : Bytes) :
+      cur.2 = false → afterDot cur.1 = some parent → Walk ps (ps parent) r → Walk ps cur r
+
+/-- A public suffix of `q` is not longer than `q` (it is a suffix of it). -/
+def Shrinking (ps : Bytes → Bytes × Bool) : Prop := ∀ q, (ps q).1.length ≤ q.length
+
+/-- A suffix reported as ICANN is, asked about itself, an ICANN suffix. -/
+def Consistent (ps : Bytes → Bytes × Bool) : Prop :=
+  ∀ q, (ps q).2 = true → ps (ps q).1 = ((ps q).1, true)
+
+theorem afterDot_length (s p : Bytes) (h : afterDot s = some p) : p.length < s.length := by
+  induction s with
+  | nil => simp [afterDot] at h
+  | cons c r ih =>
+    unfold afterDot at h
+    by_cases hc : c = dot
+    · simp only [hc, if_true, Option.some.injEq] at h
+      subst h; simp
+    · simp only [hc, if_false] at h
+      have := ih h
+      simp; omega
+
+/-- With enough fuel `icannSuffix` computes the walk. -/
+theorem icannSuffix_walk (ps : Bytes → Bytes × Bool) (hps : Shrinking ps) (fuel : Nat) :
+    ∀ cur : Bytes × Bool, cur.1.length < fuel → Walk ps cur (icannSuffix ps fuel cur) := by
+  induction fuel with
+  | zero => intro cur h; omega
+  | succ n ih =>
+    intro cur hlen
+    unfold icannSuffix
+    by_cases hc : cur.2 = true
+    · simp only [hc, if_true]
+      exact Walk.icann cur hc
+    · have hc' : cur.2 = false := by simpa using hc
+      simp only [hc', Bool.false_eq_true, if_false]
+      cases ha : afterDot cur.1 with
+      | none => exact Walk.bottom cur hc' ha
+      | some parent =>
+        have h1 := afterDot_length _ _ ha
+        have h2 := hps parent
+        exact Walk.step cur parent _ hc' ha (ih (ps parent) (by omega))
+
+theorem effSuffix_walk (ps : Bytes → Bytes × Bool) (hps : Shrinking ps) (d : Bytes) :
+    Walk ps (ps d) (effSuffix ps d) := by
+  unfold effSuffix
+  exact icannSuffix_walk ps hps _ _ (by have := hps d; omega)
+
+/-- The walk is a function: the stop name is determined by the list and the host. -/
+theorem walk_unique (ps : Bytes → Bytes × Bool) (cur : Bytes × Bool) (a b : Bytes)
+    (ha : Walk ps cur a) (hb : Walk ps cur b) : a = b := by
+  induction ha generalizing b with
+  | icann cur hc =>
+    cases hb with
+    | icann _ _ => rfl
+    | bottom _ hc' _ => rw [hc] at hc'; cases hc'
+    | step _ _ _ hc' _ _ => rw [hc] at hc'; cases hc'
+  | bottom cur hc hd =>
+    cases hb with
+    | icann _ hc' => rw [hc] at hc'; cases hc'
+    | bottom _ _ _ => rfl
+    | step _ _ _ _ hd' _ => rw [hd] at hd'; cases hd'
+  | step cur parent r hc hd _ ih =>
+    cases hb with
+    | icann _ hc' => rw [hc] at hc'; cases hc'
+    | bottom _ _ hd' => rw [hd] at hd'; cases hd'
+    | step _ parent' _ _ hd' hw' =>
+      rw [hd] at hd'
+      cases hd'
+      exact ih _ hw'
+
+/-- The walk never stops on a private answer: its result is `""` or a suffix that some look-up
+reported as ICANN. -/
+theorem walk_result (ps : Bytes → Bytes × Bool) (cur : Bytes × Bool) (r : Bytes) (h : Walk ps cur r) :
+    r = [] ∨ cur = (r, true) ∨ ∃ q, ps q = (r, true) := by
+  induction h with
+  | icann cur hc => exact Or.inr (Or.inl (by rw [← hc]))
+  | bottom _ _ _ => exact Or.inl rfl
+  | step cur parent r _ _ _ ih =>
+    rcases ih with h | h | ⟨q, h⟩
+    · exact Or.inl h
+    · exact Or.inr (Or.inr ⟨parent, h⟩)
+    · exact Or.inr (Or.inr ⟨q, h⟩)
+
+/-- Two parents of the same name are comparable: the shorter is a parent of the longer. -/
+theorem dotSuffix_total {a b d : Bytes} (ha : DotSuffix a d) (hb : DotSuffix b d)
+    (hl : a.length ≤ b.length) : DotSuffix a b := by
+  rcases hb with hb | ⟨pb, hb⟩
+  · subst hb; exact ha
+  · rcases ha with ha | ⟨pa, ha⟩
+    · subst ha
+      rw [hb] at hl
+      simp at hl
+      omega
+    · -- d = pa ++ dot :: a = pb ++ dot :: b
+      rw [hb] at ha
+      have hlen : (pb ++ dot :: b).length = (pa ++ dot :: a).length := by rw [ha]
+      simp at hlen
+      rcases List.append_eq_append_iff.mp ha with ⟨m, h1, h2⟩ | ⟨m, h1, h2⟩
+      · -- pa = pb ++ m, dot :: b = m ++ dot :: a
+        cases m with
+        | nil =>
+          simp at h2
+          exact Or.inl h2.symm
+        | cons c t =>
+          simp at h2
+          exact Or.inr ⟨t, h2.2⟩
+      · -- pb = pa ++ m, dot :: a = m ++ dot :: b
+        cases m with
+        | nil =>
+          simp at h2
+          exact Or.inl h2
+        | cons c t =>
+          simp at h2
+          have : a.length = (t ++ dot :: b).length := by rw [h2.2]
+          simp at this
+          omega
+
+/-! ### Toy public-suffix lists for the counter-examples and non-vacuity examples of C11 -/
+
+theorem not_dotSuffix_longer (s p : Bytes) (h : p.length < s.length) : ¬ DotSuffix s p := by
+  intro hs
+  have := dotSuffix_length hs
+  omega
+
+/-- A toy list with a private rule registered below another private rule: `c` is an ICANN suffix,
+`b.c` a private one (dyndns.org), `a.b.c` a private one below it (go.dyndns.org). -/
+def psNest (d : Bytes) : Bytes × Bool :=
+  if d = [99] then ([99], true)
+  else if d = [98, 46, 99] then ([98, 46, 99], false)
+  else if d = [97, 46, 98, 46, 99] ∨ d = [120, 46, 97, 46, 98, 46, 99] then ([97, 46, 98, 46, 99], false)
+  else ([], false)
+
+theorem psNest_shrinking : Shrinking psNest := by
+  intro q; unfold psNest
+  repeat' split
+  all_goals first
+    | (rename_i h; rcases h with h | h <;> subst h <;> decide)
+    | simp_all
+
+theorem psNest_icann (p : Bytes) (h : psNest p = (p, true)) : p = [99] := by
+  unfold psNest at h
+  repeat' split at h
+  all_goals simp_all
+
+theorem psNest_consistent : Consistent psNest := by
+  intro q hq
+  have : (psNest q).1 = [99] := by
+    unfold psNest at hq ⊢
+    repeat' split at hq
+    all_goals simp_all
+  rw [this]; decide
+
+/-- The public-suffix package as it is: `b.c` is a private rule, `i.b.c` an unlisted name on the way
+to a longer rule, for which the package answers (`b.c`, icann = true). -/
+def psQuirk (d : Bytes) : Bytes × Bool :=
+  if d = [99] then ([99], true)
+  else if d = [98, 46, 99] then ([98, 46, 99], false)
+  else if d = [105, 46, 98, 46, 99] then ([98, 46, 99], true)
+  else ([], false)
+
+theorem psQuirk_shrinking : Shrinking psQuirk := by
+  intro q; unfold psQuirk
+  repeat' split
+  all_goals simp_all
+
+theorem psQuirk_icann (p : Bytes) (h : psQuirk p = (p, true)) : p = [99] := by
+  unfold psQuirk at h
+  repeat' split at h
+  all_goals simp_all
+
+
 end Agd.HashPrefix
